@@ -18,7 +18,8 @@ def strategy():
                 meta_kinds=ALL_META + ('no_format',), attr_routes=('kw', 'dict', 'setup', 'later'), units=True,
                 counts_over_127=True, empty_lists=True, full_attrs=True, long_text=1000, hdr_variants=True)
     few = Profile(max_meta=6, **base)
-    many = Profile(max_meta=14, name_pool=['A', 'B', 'C1', 'LONGER-NAME'], named_sets=True, **base)
+    many = Profile(max_meta=14, name_pool=['A', 'B', 'C1', 'LONGER-NAME'], named_sets=True,
+                   set_names_per_type_differ=True, **base)
     return st.one_of(file_specs(few), file_specs(many))
 
 
